@@ -1,6 +1,7 @@
 package main
 
 import (
+	"sync"
 	"context"
 	"fmt"
 	distributed "github.com/wealdtech/go-eth2-wallet-distributed"
@@ -160,6 +161,27 @@ func cmdList(args []string) int {
 				} else {
 					stats["create.refused"]++
 				}
+			}
+			// ... and several at the same time (every one of them must be listed afterwards)
+			if call == 7 {
+				var cwg sync.WaitGroup
+				var cmu sync.Mutex
+				for j := 0; j < 6; j++ {
+					cwg.Add(1)
+					go func(j int) {
+						defer cwg.Done()
+						name := fmt.Sprintf("Par %d", j)
+						r, pk, _, _ := node.AcctMgr.Generate(ctx, &checker.Credentials{Client: "admin"}, "Wallet 1/"+name, []byte("pass"), 1, 1)
+						if r == core.ResultSucceeded {
+							cmu.Lock()
+							nextID++
+							overlay = append(overlay, acc{"Wallet 1", name, nextID, pk})
+							stats["created.concurrently"]++
+							cmu.Unlock()
+						}
+					}(j)
+				}
+				cwg.Wait()
 			}
 			client := []string{"client1", "client1", "client1", "client1", "client1", "client1", "client2", "client2", "nobody", ""}[rng.Intn(10)]
 			var paths []listPath
